@@ -426,6 +426,22 @@ def shadow(lang: str, text: str, doc: str, variant: int) -> str:
     return "fn shadow_placeholder() {}\n"
 
 
+def shadow_here(lang: str, text: str, doc: str, variant: int) -> list[str]:
+    """Lines of a function, to be appended to the example's own file, that binds the example's identifiers to unrelated
+    values in ITS scope (a compiled pattern, a list, a number): what a name is bound to elsewhere says nothing about the
+    example's own variables."""
+    if lang == "python":
+        names = [n for n in sorted(py_renamable(text, doc)) if n.isidentifier()]
+        vals = ['re.compile("x")', "[]", "0", "{}"]
+        body = [f"    {n} = {vals[(i + variant) % len(vals)]}" for i, n in enumerate(names)] or ["    shadow_placeholder = []"]
+        return ["", "", f"def shadow_bindings_{variant}():"] + body + ["    return None"]
+    if lang == "typescript":
+        names = sorted(ts_renamable(text, doc))
+        body = [f"  const {n} = [];" for n in names] or ["  const shadowPlaceholder = [];"]
+        return ["", f"function shadowBindings{variant}(): void {{"] + body + ["}"]
+    return ["", f"fn shadow_bindings_{variant}() {{}}"]
+
+
 # ---- catalogue ------------------------------------------------------------------------------------------
 def load_catalog() -> list[dict]:
     return json.loads(EXAMPLES.read_text())["examples"]
